@@ -21,6 +21,7 @@ import (
 	"path/filepath"
 	"strings"
 	"sync"
+	"time"
 )
 
 func init() { Register("C06", runC06) }
@@ -34,11 +35,12 @@ type c06Case struct {
 }
 
 type c06Run struct {
-	c     *Ctx
-	pool  *FcPool
-	foi   string
-	mu    sync.Mutex
-	colMu sync.Mutex
+	c        *Ctx
+	pool     *FcPool
+	foi      string
+	mu       sync.Mutex
+	colMu    sync.Mutex
+	nConfirm int
 	// first column disagreement (reported once)
 	colBad []any
 }
@@ -46,15 +48,51 @@ type c06Run struct {
 func (h *c06Run) transpile(src string) srvResp {
 	return h.transpileFoi(h.foi, src)
 }
+
+// transpileFoi: the hooked in-process fc; a server that dies (fatal error, or the 20 s limit on a loaded
+// machine) is retried, and a death is only reported when a real fc process on the same input also ends
+// without a normal exit (0 or 1).
 func (h *c06Run) transpileFoi(foi, src string) srvResp {
-	s := h.pool.Get()
-	defer h.pool.Put(s)
-	return s.Transpile(SrcFile{"mini.foi", foi}, SrcFile{"x.fo", src})
+	var r srvResp
+	for attempt := 0; attempt < 2; attempt++ {
+		s := h.pool.Get()
+		r = s.Transpile(SrcFile{"mini.foi", foi}, SrcFile{"x.fo", src})
+		h.pool.Put(s)
+		if !r.Died {
+			return r
+		}
+	}
+	h.mu.Lock()
+	h.nConfirm++
+	d := filepath.Join(h.c.Work, fmt.Sprintf("c06confirm%d", h.nConfirm))
+	h.mu.Unlock()
+	MustWrite(filepath.Join(d, "mini.foi"), foi)
+	MustWrite(filepath.Join(d, "x.fo"), src)
+	rr := Run(d, 120*time.Second, 4096, nil, filepath.Join(h.c.Bin, "fc"), "mini.foi", "x.fo")
+	h.c.Count("server-death-confirmed-by-real-process")
+	if rr.TimedOut || rr.Signal != "" || (rr.Exit != 0 && rr.Exit != 1) {
+		r.Err = fmt.Sprintf("server died and the real fc process ended with exit %d signal %q timeout %v: %s", rr.Exit, rr.Signal, rr.TimedOut, c06Brief(rr.Stdout+rr.Stderr))
+		return r
+	}
+	h.c.Count("server-death-not-reproduced")
+	out, err := os.ReadFile(filepath.Join(d, "gen_x.go"))
+	res := srvResp{Ok: rr.Exit == 0 && err == nil, Err: strings.TrimSpace(rr.Stdout + rr.Stderr), Outs: map[string]string{}}
+	if res.Ok {
+		res.Outs["gen_x.go"] = string(out)
+	}
+	return res
 }
 func (h *c06Run) tokens(src string) srvResp {
-	s := h.pool.Get()
-	defer h.pool.Put(s)
-	return s.Tokens(src)
+	var r srvResp
+	for attempt := 0; attempt < 3; attempt++ {
+		s := h.pool.Get()
+		r = s.Tokens(src)
+		h.pool.Put(s)
+		if !r.Died {
+			return r
+		}
+	}
+	return r
 }
 
 func c06Out(r srvResp) (string, bool) {
@@ -346,6 +384,10 @@ func runC06(c *Ctx) {
 		"every token's tracked column == tkz_cols (model) and == offset - line start unless a hidden newline precedes it on its line; " +
 		"model block tree(layout) == model block tree(canonical); a dedented statement line: fc rejects or emits different Go iff the model rejects or gives a different tree"
 
+	if c.Replay != "" {
+		c06Replay(c, h)
+		return
+	}
 	progs := c06Programs(c, rng)
 	nLayouts := c.Pick(8, 40)
 	cases := make([]*c06Case, len(progs))
@@ -492,15 +534,25 @@ func runC06(c *Ctx) {
 				cand = append(cand, m)
 			}
 		}
+		// arms of union matches (and the default arm of string matches) are tested against the offside
+		// line: dedented below the block that contains the match they end it
+		for _, a := range l.armMarks {
+			if a.Off > 0 && (!a.Str || a.Def) {
+				cand = append(cand, lMark{LineStart: a.LineStart, Col: a.Off, Parent: r.Intn(a.Off), Index: -1 - a.Index, Own: true})
+			}
+		}
 		if len(cand) == 0 {
 			return
 		}
 		m := cand[r.Intn(len(cand))]
 		newCol := m.Parent
-		if r.Intn(4) == 0 {
+		if m.Index >= 0 && r.Intn(4) == 0 {
 			newCol = m.Parent + r.Intn(m.Col-m.Parent)
 		}
 		src := c06Dedent(string(l.b), m, newCol)
+		if m.Index < 0 {
+			c.Count("negative:arm-line")
+		}
 		rk := h.transpile(src)
 		out, ok := c06Out(rk)
 		c.Eval(src, true)
@@ -662,6 +714,62 @@ func runC06(c *Ctx) {
 			c.Violate("hazard-other", "hazard layout fails differently from the known finding: "+rk.Err, ex, false)
 		}
 	}
+	// hazard "string-arm-dedent": the literal arms and the variable rule of a string match are not tested
+	// against the offside line (parseSMRules / parseStringVarRule have no insideOffside): such an arm
+	// dedented below the block that contains the match does not end that block.
+	saFail, saPass := 0, 0
+	var saExample map[string]any
+	for i := 0; i < c.Pick(40, 600); i++ {
+		cs := cases[rng.Intn(len(cases))]
+		if cs == nil || cs.Out == "" {
+			continue
+		}
+		l := cs.Prog.render(rng.Fork(), c06RandOpt(rng))
+		var cand []lArmMark
+		for _, a := range l.armMarks {
+			if a.Str && !a.Def && a.Off > 0 {
+				cand = append(cand, a)
+			}
+		}
+		if len(cand) == 0 {
+			continue
+		}
+		a := cand[rng.Intn(len(cand))]
+		newCol := rng.Intn(a.Off)
+		src := c06Dedent(string(l.b), lMark{LineStart: a.LineStart}, newCol)
+		rk := h.transpile(src)
+		out, ok := c06Out(rk)
+		c.Eval(src, true)
+		c.Count("hazard:string-arm-dedent")
+		if rk.Died {
+			c.Violate("crash", "fc crashed on a dedented string-match arm", map[string]any{"src": src}, false)
+			continue
+		}
+		if !(ok && out == cs.Out) {
+			saPass++ // rejected or different output: the dedented arm ended the block
+			continue
+		}
+		saFail++
+		ex := map[string]any{"program": cs.Prog.Name, "valid_src": string(l.b), "dedented_src": src, "arm": a, "new_col": newCol}
+		if saExample == nil || len(src) < len(saExample["dedented_src"].(string)) {
+			saExample = ex
+		}
+		if cs.Tree != "" {
+			if t := h.modelTree(src, cs.Intern); t != cs.Tree {
+				c.Disagree()
+				c.Violate("corr-blocks", "a dedented string-match arm leaves fc's output unchanged but the model parser sees another structure", ex, true)
+			}
+		}
+	}
+	c.Res.Extra["hazard_string_arm_dedent"] = map[string]int{"block_not_ended": saFail, "block_ended_or_rejected": saPass}
+	if saFail > 0 {
+		if c.IsKnown("string-arm-dedent") {
+			c.Known("string-arm-dedent")
+			c.Note("hazard string-arm-dedent: %d of %d dedented string-match arms did not end their block", saFail, saFail+saPass)
+		} else {
+			c.Violate("string-arm-dedent", "an arm of a string match dedented below the block that contains the match does not end that block (literal and variable rules are not tested against the offside line): the emitted Go is unchanged", saExample, false)
+		}
+	}
 	c.Res.Extra["hazard_elif_one_line"] = map[string]int{"still_failing": hazFail, "passing": hazPass}
 	if hazFail > 0 {
 		if c.IsKnown("elif-one-line") {
@@ -740,4 +848,59 @@ func runC06(c *Ctx) {
 	}
 	c.Lap("real")
 
+}
+
+// c06Replay re-runs the comparison recorded in a replay file (two layouts, a dedent, or a source whose
+// columns disagreed).
+func c06Replay(c *Ctx, h *c06Run) {
+	b, err := os.ReadFile(c.Replay)
+	if err != nil {
+		panic(err)
+	}
+	var doc struct {
+		Replay map[string]any `json:"replay"`
+	}
+	if err := jsonUnmarshal(b, &doc); err != nil {
+		panic(err)
+	}
+	str := func(k string) string { s, _ := doc.Replay[k].(string); return s }
+	intern := map[string]int{}
+	switch {
+	case str("canonical_src") != "" && str("layout_src") != "":
+		r0, r1 := h.transpile(str("canonical_src")), h.transpile(str("layout_src"))
+		o0, ok0 := c06Out(r0)
+		o1, ok1 := c06Out(r1)
+		c.Eval(str("layout_src"), true)
+		t0, t1 := h.modelTree(str("canonical_src"), intern), h.modelTree(str("layout_src"), intern)
+		c.Note("replay: canonical ok=%v err=%q; layout ok=%v err=%q; same output=%v; model trees equal=%v", ok0, r0.Err, ok1, r1.Err, o0 == o1, t0 == t1)
+		if ok0 != ok1 || o0 != o1 {
+			c.Violate("layout", "replay: the two layouts still differ", doc.Replay, false)
+		}
+	case str("valid_src") != "" && str("dedented_src") != "":
+		r0, r1 := h.transpile(str("valid_src")), h.transpile(str("dedented_src"))
+		o0, ok0 := c06Out(r0)
+		o1, ok1 := c06Out(r1)
+		c.Eval(str("dedented_src"), true)
+		t0, t1 := h.modelTree(str("valid_src"), intern), h.modelTree(str("dedented_src"), intern)
+		fcSame := ok0 && ok1 && o0 == o1
+		c.Note("replay: dedent: fc same output=%v (err=%q); model trees equal=%v", fcSame, r1.Err, t0 == t1)
+		if r1.Died {
+			c.Violate("crash", "replay: fc crashes on the dedented source", doc.Replay, false)
+		} else if fcSame != (t0 == t1) {
+			c.Violate("dedent", "replay: fc and the model still disagree on the dedented line", doc.Replay, fcSame == false)
+		}
+	case str("src") != "":
+		h.checkColumns(str("src"), "replay")
+		for _, bad := range h.colBad {
+			c.Violate("corr-cols", "replay: column tracking still disagrees", bad, true)
+		}
+		r := h.transpile(str("src"))
+		c.Eval(str("src"), true)
+		c.Note("replay: transpile ok=%v err=%q died=%v", r.Ok, r.Err, r.Died)
+		if r.Died {
+			c.Violate("crash", "replay: fc crashes", doc.Replay, false)
+		}
+	default:
+		panic("replay file has no recognised sources")
+	}
 }
